@@ -1,11 +1,19 @@
 """C11 — pruning, move ordering and re-searches never change the search result.
 
-The real Search::{search, iter_deep, alpha_beta_start, alpha_beta, quiescence, limits_exceeded, store_killers, get_pv,
-log_uci_info} and MoveOrderer / score_move are executed from MIR on the abstract game (absgame.py) with the
-transposition table switched off (probe returns None), no limits, search(evaluator, Some(d)).
-Obligation, for all values of the per-node facts (legal / capture flags, in_check, repetition, fifty-move, evaluations):
-   info.best_score == reference minimax value of the root, and the reference value of info.best_move equals it;
-   no panic.
+Proof shape: induction over the height of the look-ahead tree, one node per obligation (searchstep.py).  The real
+Search::alpha_beta / quiescence / alpha_beta_start / iter_deep / search, MoveOrderer::new/next and score_move are executed
+from MIR on ONE node with n pseudo-legal moves; the recursive calls return any result allowed by the window-search contract
+   C(v, a, b, r) := (r <= a => v <= r) /\\ (r >= b => v >= r) /\\ (a < r < b => r == v)
+for free child values v_i; statistics and the killer table are arbitrary, the transposition table is off, no limits.
+Obligations (for all legality / capture flags, check / repetition / fifty flags, evaluations, child values, windows, plies):
+   AB  alpha_beta at a node satisfies C(V, alpha, beta, result) with V = the reference value of the property statement
+       (0 on fifty-move or repetition; +1 ply when in check; at depth 0 the quiescence value; mate MIN+ply, stalemate 0;
+       otherwise max over legal moves of the negated child value), calls its children with depth-1 and proper windows;
+   Q   quiescence satisfies C(max(eval, max over legal captures of -q_child), alpha, beta, result);
+   R   alpha_beta_start returns exactly max over legal moves of -v_child as best_score, and best_move attains it;
+   W   iter_deep / search run alpha_beta_start for depth 1..=d in order and keep the last completed result;
+   every reference value stays in [MIN+1, MAX] (the invariant the contract needs); no panic.
+The move order is whatever the real MoveOrderer produces (each outcome of its comparisons is a separate path).
 """
 import json
 import z3
@@ -15,95 +23,278 @@ from mirsym.values import *
 from mirsym import solve
 from . import absgame as A
 from . import boardsym as B
+from . import searchstep as SS
 
 LEVEL = 'other'
-SEARCH = 'search::Search::search::<evaluate::simple_evaluator::SimpleEvaluator>'
+MIN16, MAX16 = SS.MIN16, SS.MAX16
+I = z3.IntVal
 
 
-def shapes(tier):
-    if tier == 'quick':
-        return [dict(B=2, d=1, ext=(1,), q=1), dict(B=2, d=2, ext=(1,), q=1)]
-    return [dict(B=2, d=1, ext=(1,), q=2), dict(B=2, d=2, ext=(1,), q=1), dict(B=3, d=1, ext=(1,), q=1),
-            dict(B=2, d=2, ext=(1, 2), q=1), dict(B=3, d=2, ext=(1,), q=1), dict(B=2, d=3, ext=(1,), q=1)]
+def sneg(x):
+    return z3.If(x == MIN16, I(MAX16), -x)
 
 
-def run_search(run, game, env, depth, limits=None):
-    ex = run.executor()
-    A.install(ex, game, env)
-    for c in game.pre:
-        ex.assume(c)
-    if A.INT_MODE[0]:
-        ex.int_types = {'i16'}
+def imax(a, b):
+    return z3.If(a > b, a, b)
+
+
+def ref_children_max(env, usable):
+    """max over usable moves of the negated child value; (value, any_usable)"""
+    best = I(MIN16)
+    anyu = z3.BoolVal(False)
+    for i, v in enumerate(env.v):
+        best = z3.If(z3.And(usable[i], sneg(v) > best), sneg(v), best)
+        anyu = z3.Or(anyu, usable[i])
+    return best, anyu
+
+
+def check_calls(run, env, name, pre, guard, expect_depth):
+    """nested calls: proper windows, children searched with depth-1"""
+    bad = []
+    for c in env.calls:
+        g = zb(c['guard'])
+        # the only window with a == MIN is the null window after alpha reached MAX; its result is irrelevant to the caller
+        bad.append(z3.And(g, c['a'] >= MIN16 + 1, z3.Not(c['a'] < c['b'])))
+        if c['which'] == 'alpha_beta' and expect_depth is not None:
+            bad.append(z3.And(g, bv(c['depth']) != expect_depth))
+    if bad:
+        q = run.decide('%s/child-calls' % name, pre + [z3.Or(*bad)], kind='smt', note='children are searched with a proper window (a < b) and depth-1')
+        if q.verdict == 'sat':
+            run.violation('%s: a child is searched with an empty window or the wrong depth' % name, {'case': name, 'model': str(q.model)[:1500]})
+
+
+def report(run, q, name, what, terms=None):
+    facts = {str(d): str(q.model[d]) for d in q.model.decls() if not str(d).startswith(('kl', 'nodes', 'seldepth'))}
+    for k, t in (terms or {}).items():
+        try:
+            facts['=' + k] = str(q.model.eval(t, model_completion=True))
+        except Exception as e:
+            facts['=' + k] = 'n/a'
+    run.violation('%s: %s' % (name, what), {'case': name, 'facts': facts})
+
+
+def step_alpha_beta(run, n):
+    for mode in ('deep', 'horizon', 'any-window'):
+        name = 'AB/n%d/%s' % (n, mode)
+        if mode == 'horizon' and n != 1:
+            continue
+        env = SS.StepEnv(run, n, 'alpha_beta')
+        ex = env.ex
+        st = State()
+        sp = ex.alloc(st, env.search_value(st))
+        alpha, beta = z3.Int('alpha'), z3.Int('beta')
+        depth = z3.BitVec('depth', 8)
+        node = env.G.nodes[0]
+        pre0 = [alpha >= MIN16 + 1, beta <= MAX16, alpha < beta]
+        if mode == 'any-window':
+            # windows outside the contract's precondition (alpha == MIN after a mate score, empty windows below it):
+            # the result is irrelevant to the caller, but the call must still terminate without panic
+            pre0 = [alpha >= MIN16, alpha <= MAX16, beta >= MIN16, beta <= MAX16]
+        if mode == 'horizon':
+            pre0.append(depth == 0)
+        else:
+            pre0.append(z3.And(z3.UGE(depth, 0), z3.ULE(depth, 250)) if mode == 'any-window' else z3.And(z3.UGE(depth, 1), z3.ULE(depth, 250)))
+        for c in pre0:
+            ex.assume(c)
+        r = ex.call(env.item('alpha_beta'), [sp, ex.alloc(st, ()), alpha, beta, depth, ('instant',)],
+                    ['&mut search::Search', '&evaluate::simple_evaluator::SimpleEvaluator', 'i16', 'i16', 'u8', 'std::time::Instant'], 'i16', st, 'harness')
+        run.absorb(ex)
+        if r is None:
+            run.inconclusive.append('%s: diverges' % name)
+            continue
+        res, st2 = r
+        res = ex.to_zint(res, 'i16')
+        pre = ex.pre + [zb(st2.guard)]
+        if mode == 'any-window':
+            for ob, qq in run.check_obligations(ex, name):
+                report(run, qq, name, 'panic reachable in alpha_beta (window outside the contract): %s %s' % (ob.where.split('::')[-1], ob.msg[:80]))
+            continue
+        legal = [m['legal'] for m in node['moves']]
+        cmax, anyl = ref_children_max(env, legal)
+        ply = z3.BV2Int(env.ply, False)
+        none = z3.If(zb(node['in_check']), I(MIN16) + ply, I(0))
+        expand = z3.If(anyl, cmax, none)
+        eff_depth0 = z3.And(depth == 0, z3.Not(zb(node['in_check'])))
+        V = z3.If(z3.Or(zb(node['fifty']), zb(node['repeated'])), I(0), z3.If(eff_depth0, env.q, expand))
+        q = run.decide('%s/contract' % name, pre + [z3.Not(SS.contract(V, alpha, beta, res))], kind='smt',
+                       note='alpha_beta(node, alpha, beta, depth) satisfies the window contract w.r.t. the reference value')
+        if q.verdict == 'sat':
+            report(run, q, name, 'alpha_beta result violates the contract w.r.t. the minimax value', {'result': res, 'V': V, 'calls': z3.IntVal(len(env.calls))})
+            for i_, c_ in enumerate(env.calls):
+                run.violations[-1]['what'] += '\n      call%d %s node%d a=%s b=%s r=%s active=%s' % (i_, c_['which'], c_['node'], q.model.eval(c_['a']), q.model.eval(c_['b']), q.model.eval(c_['r']), q.model.eval(zb(c_['guard'])))
+        if mode == 'deep' and n == 2:
+            qt = run.decide('%s/twin' % name, pre + [z3.Not(SS.contract(V + 1, alpha, beta, res))], kind='smt')
+            run.queries.pop()
+            run.vacuity.append({'case': name, 'twin': qt.verdict})
+            if qt.verdict != 'sat':
+                run.inconclusive.append('%s: vacuity twin came back %s' % (name, qt.verdict))
+        q = run.decide('%s/range' % name, pre + [z3.Or(V < MIN16 + 1, V > MAX16)], kind='smt', note='reference value stays in [MIN+1, MAX]')
+        if q.verdict == 'sat':
+            report(run, q, name, 'reference value leaves [MIN+1, MAX]')
+        exp_depth = z3.If(zb(node['in_check']), depth + 1, depth) - 1
+        check_calls(run, env, name, pre, st2.guard, exp_depth)
+        for ob, qq in run.check_obligations(ex, name):
+            report(run, qq, name, 'panic reachable in alpha_beta: %s %s' % (ob.where.split('::')[-1], ob.msg[:80]))
+        if not run.samples:
+            run.samples.append({'case': name, 'nested_calls': len(env.calls), 'result_term_size': len(str(res))})
+
+
+def step_quiescence(run, n):
+    name = 'Q/n%d' % n
+    env = SS.StepEnv(run, n, 'quiescence')
+    ex = env.ex
     st = State()
-    sp = ex.alloc(st, A.search_value(ex, st, game, limits))
-    ev = ()
-    callee = None
-    for n in run.prog.items:
-        if n.endswith('::search') and 'search::<impl' in n and run.prog.items[n].kind == 'fn' and len(run.prog.items[n].args) == 3:
-            callee = n
-    r = ex.call(callee, [sp, ex.alloc(st, ev), A.some(CI(depth, 8))],
-                ['&mut search::Search', '&evaluate::simple_evaluator::SimpleEvaluator', 'std::option::Option<u8>'], '()', st, 'harness')
-    return ex, r, sp
-
-
-def worker(run, shp):
-    name = 'B%d-d%d-ext%s-q%d' % (shp['B'], shp['d'], ''.join(map(str, shp['ext'])), shp['q'])
-    G = A.Game(shp['B'], shp['d'], shp['ext'], shp['q'])
-    env = {'cache': False}
-    ex, r, sp = run_search(run, G, env, shp['d'])
+    sp = ex.alloc(st, env.search_value(st))
+    alpha, beta = z3.Int('alpha'), z3.Int('beta')
+    for c in [alpha >= MIN16 + 1, beta <= MAX16, alpha < beta]:
+        ex.assume(c)
+    r = ex.call(env.item('quiescence'), [sp, ex.alloc(st, ()), alpha, beta, ('instant',)],
+                ['&mut search::Search', '&evaluate::simple_evaluator::SimpleEvaluator', 'i16', 'i16', 'std::time::Instant'], 'i16', st, 'harness')
     run.absorb(ex)
     if r is None:
-        run.inconclusive.append('%s: search diverges on every path' % name)
+        run.inconclusive.append('%s: diverges' % name)
         return
-    _, st = r
-    S = ex.load(st, sp.root, ())
-    info = S[4]
-    best_move, best_score = info[0], info[1]
-    root_has_legal = z3.Or(*[m['legal'] for m in G.nodes[0]['moves']])
-    pre = ex.pre + [root_has_legal, zb(st.guard)]
-    ref, vals = A.ref_root(G, shp['d'])
-    bad = [bv(best_score.d) != 1, bv(best_move.d) != 1]
-    if 1 in best_score.pay:
-        bad.append(bv(best_score.pay[1][0]) != ref)
-    if 1 in best_move.pay:
-        mv = best_move.pay[1][0]
-        idx = bv(mv[1][0])
-        chosen = vals[-1]
-        legal = G.nodes[0]['moves'][-1]['legal']
-        for i in reversed(range(len(vals) - 1)):
-            chosen = z3.If(idx == i, vals[i], chosen)
-            legal = z3.If(idx == i, G.nodes[0]['moves'][i]['legal'], legal)
-        bad += [chosen != ref, z3.Not(legal), z3.UGE(idx, len(vals))]
-    q = run.decide('%s/root-value' % name, pre + [z3.Or(*bad)], kind='bv', timeout=run.timeout * (1 if run.tier == 'quick' else 2),
-                   note='best_score == minimax(root) and value(best_move) == minimax(root), for all node facts')
-    run.extra['nodes_%s' % name] = len(G.nodes)
+    res, st2 = r
+    res = ex.to_zint(res, 'i16')
+    pre = ex.pre + [zb(st2.guard)]
+    node = env.G.nodes[0]
+    usable = [z3.And(m['legal'], m['capture']) for m in node['moves']]
+    cmax, anyu = ref_children_max(env, usable)
+    V = z3.If(z3.And(anyu, cmax > node['eval']), cmax, node['eval'])
+    q = run.decide('%s/contract' % name, pre + [z3.Not(SS.contract(V, alpha, beta, res))], kind='smt',
+                   note='quiescence(node, alpha, beta) satisfies the window contract w.r.t. stand-pat/captures maximum')
     if q.verdict == 'sat':
-        facts = {str(d): str(q.model[d]) for d in q.model.decls()}
-        run.violation('search result differs from the minimax value on abstract game %s' % name, {'shape': shp, 'facts': facts})
-    for ob, qq in run.check_obligations(ex, name, pre=ex.pre + [root_has_legal]):
-        run.violation('search panics on abstract game %s: %s' % (name, ob), {'shape': shp, 'site': ob.where, 'msg': ob.msg})
-    # vacuity twin: the value is not constant
-    qt = run.decide('%s/twin' % name, pre + [bv(best_score.pay[1][0]) != 0] if 1 in best_score.pay else pre, kind='bv')
-    run.queries.pop()
-    run.vacuity.append({'shape': name, 'twin': qt.verdict})
-    if qt.verdict != 'sat':
-        run.inconclusive.append('%s: vacuity twin %s' % (name, qt.verdict))
-    if len(run.samples) < 1:
-        run.samples.append({'shape': name, 'nodes': len(G.nodes), 'reference_root_value': str(z3.simplify(ref))[:400]})
+        report(run, q, name, 'quiescence result violates the contract')
+    q = run.decide('%s/range' % name, pre + [z3.Or(V < MIN16 + 1, V > MAX16)], kind='smt')
+    if q.verdict == 'sat':
+        report(run, q, name, 'quiescence reference value leaves [MIN+1, MAX]')
+    check_calls(run, env, name, pre, st2.guard, None)
+    for c in env.calls:
+        if c['which'] != 'quiescence':
+            run.violation('%s: quiescence calls %s' % (name, c['which']), {'case': name})
+    for ob, qq in run.check_obligations(ex, name):
+        report(run, qq, name, 'panic reachable in quiescence: %s %s' % (ob.where.split('::')[-1], ob.msg[:80]))
+
+
+def step_root(run, n):
+    name = 'R/n%d' % n
+    env = SS.StepEnv(run, n, 'root', ply_concrete=0)
+    ex = env.ex
+    st = State()
+    sp = ex.alloc(st, env.search_value(st))
+    depth = z3.BitVec('depth', 8)
+    ex.assume(z3.And(z3.UGE(depth, 1), z3.ULE(depth, 250)))
+    r = ex.call(env.item('alpha_beta_start'), [sp, ex.alloc(st, ()), depth, ('instant',)],
+                ['&mut search::Search', '&evaluate::simple_evaluator::SimpleEvaluator', 'u8', 'std::time::Instant'], 'board::ply::Ply', st, 'harness')
+    run.absorb(ex)
+    if r is None:
+        run.inconclusive.append('%s: diverges' % name)
+        return
+    best_ply, st2 = r
+    S = ex.load(st2, sp.root, ())
+    info = S[4]
+    bm, bs = info[0], info[1]
+    node = env.G.nodes[0]
+    legal = [m['legal'] for m in node['moves']]
+    cmax, anyl = ref_children_max(env, legal)
+    pre = ex.pre + [zb(st2.guard), anyl]
+    bad = [bv(bs.d) != 1, bv(bm.d) != 1]
+    if 1 in bs.pay:
+        bad.append(ex.to_zint(bs.pay[1][0], 'i16') != cmax)
+    if 1 in bm.pay:
+        idx = bv(bm.pay[1][0][1][0])
+        chosen, lg = sneg(env.v[-1]), legal[-1]
+        for i in reversed(range(len(env.v) - 1)):
+            chosen = z3.If(idx == i, sneg(env.v[i]), chosen)
+            lg = z3.If(idx == i, legal[i], lg)
+        bad += [chosen != cmax, z3.Not(lg), z3.UGE(idx, len(env.v))]
+        ridx = bv(best_ply[1][0])
+        bad.append(ridx != idx)
+    q = run.decide('%s/exact' % name, pre + [z3.Or(*bad)], kind='smt',
+                   note='alpha_beta_start: best_score == max over legal moves of -v_child, best_move is legal and attains it')
+    if q.verdict == 'sat':
+        report(run, q, name, 'root result differs from the minimax value')
+    # the position is restored and the stored root entry would carry the same score (cache off: insert is observed only)
+    ins = [i for i in env.env['inserts']]
+    check_calls(run, env, name, pre, st2.guard, depth - 1)
+    nb = S[1][1].n
+    if nb != 0:
+        run.violation('%s: the search board is left at node %d' % (name, nb), {'case': name})
+    for ob, qq in run.check_obligations(ex, name, pre=ex.pre + [anyl]):
+        report(run, qq, name, 'panic reachable at the root: %s %s' % (ob.where.split('::')[-1], ob.msg[:80]))
+
+
+def step_wiring(run):
+    """iter_deep: iterations 1..=d in order, result of the last iteration is what bestmove prints"""
+    name = 'W/iter_deep'
+    env = SS.StepEnv(run, 2, 'root', ply_concrete=0)
+    ex = env.ex
+    calls = []
+
+    def ab_start(ctx, sp, ev, depth, start):
+        k = len(calls)
+        calls.append({'depth': depth, 'guard': ctx.st.guard})
+        mv = env.G.ply_value(0, 0)
+        sc = z3.Int('iter_score_%d' % k)
+        ex.assume(z3.And(sc >= MIN16, sc <= MAX16))
+        base = sp.path
+        ctx.ex.store_to(ctx.st, sp.root, base + (('f', 4), ('f', 0)), some(mv))
+        ctx.ex.store_to(ctx.st, sp.root, base + (('f', 4), ('f', 1)), some(sc))
+        return mv
+    from mirsym.models import some
+    ex.model(r'^search::Search::alpha_beta_start::<.*>$', ab_start)
+    ex.model(r'^search::Search::get_pv$', lambda ctx, sp, d: Seq(()))
+    logged = []
+    ex.model(r'^search::Search::log_uci_info$', lambda ctx, sp, d, t, pv: logged.append((d, ctx.st.guard)) or UNIT)
+    st = State()
+    sp = ex.alloc(st, env.search_value(st))
+    D = 3
+    r = ex.call(env.item('search'), [sp, ex.alloc(st, ()), some(CI(D, 8))],
+                ['&mut search::Search', '&evaluate::simple_evaluator::SimpleEvaluator', 'std::option::Option<u8>'], '()', st, 'harness')
+    run.absorb(ex)
+    depths = [simp(c['depth']) for c in calls]
+    ok = [isinstance(d, CI) and d.v == i + 1 for i, d in enumerate(depths)] and len(depths) == D
+    q = run.decide('%s/iterations' % name, [z3.BoolVal(not (ok and all(isinstance(d, CI) and d.v == i + 1 for i, d in enumerate(depths))))], kind='smt',
+                   note='search(Some(3)) runs alpha_beta_start with depth 1, 2, 3 in this order')
+    if q.verdict == 'sat':
+        run.violation('iter_deep does not run iterations 1..=d in order: %s' % depths, {'depths': [str(d) for d in depths]})
+    if r is not None:
+        S = ex.load(r[1], sp.root, ())
+        bs = S[4][1]
+        last = z3.Int('iter_score_%d' % (D - 1))
+        q = run.decide('%s/last-result-kept' % name, ex.pre + [zb(r[1].guard), z3.Or(bv(bs.d) != 1, ex.to_zint(bs.pay[1][0], 'i16') != last)], kind='smt',
+                       note='after search the stored result is that of the last iteration')
+        if q.verdict == 'sat':
+            run.violation('search does not keep the last iteration result', {})
+        bm = [e for e in env.env['events'] if e[0] == 'log']
+        if len(bm) != 1:
+            run.violation('search logs %d lines besides info (expected exactly one bestmove)' % len(bm), {})
+    for ob, qq in run.check_obligations(ex, name):
+        report(run, qq, name, 'panic reachable in search/iter_deep: %s %s' % (ob.where.split('::')[-1], ob.msg[:80]))
+
+
+def worker(run, job):
+    kind, n = job
+    {'AB': step_alpha_beta, 'Q': step_quiescence, 'R': step_root}[kind](run, n) if kind != 'W' else step_wiring(run)
 
 
 def check(run, replay=None):
     if replay:
-        print('C11 counterexamples are abstract-game fact assignments; see the replay file')
+        print('C11 counterexamples are assignments of abstract node facts; see the replay file')
         return 1
     run.build()
     if not B.check_layout(run.prog):
         run.inconclusive.append('data layout differs')
         return
     run.extra['explanation'] = __doc__
-    shp = shapes(run.tier)
-    run.bounds.append('abstract games: ' + '; '.join('branching %d, nominal depth %d, check extensions at plies %s, %d quiescence plies' % (s['B'], s['d'], s['ext'], s['q']) for s in shp))
-    run.outside += ['larger trees', 'transposition table active (C12, C13)', 'positions with no pseudo-legal move at an expanded node (moves[0] is read unconditionally)']
-    run.stubs |= {'Board queried only through the abstract game', 'capture-only list modelled as the full list with non-captures rejected by the legality answer',
-                  'transposition-table probe returns None (cache off)', 'clock: fresh non-decreasing values < 2^64'}
-    run.parallel(worker, shp)
+    N = 3 if run.tier == 'quick' else 4
+    jobs = [('AB', n) for n in range(1, N + 1)] + [('Q', n) for n in range(0, N + 1)] + [('R', n) for n in range(1, N + 1)] + [('W', 0)]
+    run.bounds.append('nodes with 1..%d pseudo-legal moves (quiescence: 0..%d); any depth (induction over the tree height); any ply 1..200; all windows MIN <= alpha < beta <= MAX' % (N, N))
+    run.outside += ['nodes with more moves than the bound (the loop body is uniform, but this is not proved by a loop invariant)',
+                    'transposition table active (C12, C13)', 'limits / stop (C09, C13)',
+                    'a node without any pseudo-legal move inside alpha_beta (moves[0] is read unconditionally; suspected S12)',
+                    'the induction over the tree height itself (each step is solver-checked, the composition is the standard argument)']
+    run.stubs |= {'Board queried only through a one-level abstract game', 'recursive alpha_beta / quiescence calls replaced by the window contract',
+                  'killer table and statistics arbitrary', 'capture-only list modelled as the full list with non-captures rejected by the legality answer',
+                  'transposition-table probe returns None (cache off)', 'clock: fresh non-decreasing values < 2^64', 'scores in exact integer mode'}
+    run.parallel(worker, jobs)
